@@ -116,6 +116,51 @@ def _stored_names(fn: ast.FunctionDef) -> set[str]:
     return out
 
 
+_NO_EFFECT_CALLS = {'len', 'int', 'bytes', 'bool', 'str', 'type', 'isinstance', 'range', 'min', 'max', 'abs', 'sum', 'sorted',
+                    'list', 'tuple', 'set', 'dict', 'enumerate', 'zip', 'reversed', 'any', 'all', 'callable', 'hasattr',
+                    'getattr', 'repr', 'hex', 'ord', 'chr', 'float', 'divmod', 'round',
+                    'sert', 'vert', 'tert', 'yert', 'bytes_to_int', 'int_to_bytes', 'uint_to_bytes', 'bytes_to_bool',
+                    'bytes_to_float', 'float_to_bytes', 'sha256', 'shake_256', 'clamp_scalar', 'derive_key_from_seed',
+                    'derive_point_from_scalar', 'aggregate_points', 'aggregate_scalars', 'sign_with_scalar', 'xor',
+                    'not_bytes', 'and_bytes', 'or_bytes', 'bytes_are_same', 'H_big', 'H_small', 'ceil', 'floor', 'log2',
+                    'isnan', 'time', 'warn'}
+
+
+def _path_root(e: ast.AST) -> str | None:
+    while isinstance(e, (ast.Attribute, ast.Subscript)):
+        e = e.value
+    return e.id if isinstance(e, ast.Name) else None
+
+
+def _path_may_change(e: ast.AST, stmts) -> bool:
+    """Can executing `stmts` change what the attribute path `e` (a.b.c) evaluates to?  Writes to the path, to a prefix
+    or to an extension of it, and any call that receives the path's root object (or is a method of a prefix)."""
+    te = ast.unparse(e)
+    root = _path_root(e)
+    for s in stmts:
+        for n in ast.walk(s):
+            if isinstance(n, (ast.Attribute, ast.Subscript, ast.Name)) and isinstance(getattr(n, 'ctx', None), (ast.Store, ast.Del)):
+                t = ast.unparse(n)
+                if t == te or te.startswith(t + '.') or te.startswith(t + '[') or t.startswith(te + '.') or t.startswith(te + '['):
+                    return True
+            if isinstance(n, ast.Call):
+                if isinstance(n.func, ast.Name) and n.func.id in _NO_EFFECT_CALLS:
+                    continue
+                if isinstance(n.func, ast.Attribute):
+                    recv = ast.unparse(n.func.value)
+                    if te == recv or te.startswith(recv + '.') or te.startswith(recv + '['):
+                        # reading methods of the VM classes do not change their object
+                        if n.func.attr not in ('peek', 'size', 'has_terminated', 'hex', 'get', 'keys', 'values', 'items',
+                                               'copy', 'digest', 'to_bytes', 'from_bytes', 'lower', 'upper', 'index',
+                                               'count', 'startswith', 'endswith', 'encode', 'decode') or recv == root and \
+                                n.func.attr == 'get':
+                            return True
+                for a in list(n.args) + [k.value for k in n.keywords]:
+                    if isinstance(a, ast.Name) and a.id == root:
+                        return True
+    return False
+
+
 def _simple_arg(e: ast.AST) -> bool:
     if isinstance(e, (ast.Name, ast.Constant)):
         return True
@@ -537,32 +582,40 @@ class Inliner:
         if missing:
             raise NotInlinable(f'unbound parameters {missing}')
         stored = _stored_names(hfn)
-        subst: dict[str, ast.AST] = {}
-        rename: dict[str, str] = {}
-        pre: list[ast.stmt] = []
-        for p in params + kwonly:
-            e = bound[p]
-            if _simple_arg(e) and p not in stored:
-                subst[p] = e
-            else:
-                rename[p] = p + tag
-                asg = ast.Assign(targets=[ast.Name(id=p + tag, ctx=ast.Store())], value=copy.deepcopy(e))
-                pre.append(ast.copy_location(asg, call))
-        for nm in stored:
-            if nm not in rename and nm not in subst:
-                rename[nm] = nm + tag
-        body = copy.deepcopy(hfn.body)
-        if body and isinstance(body[0], ast.Expr) and isinstance(body[0].value, ast.Constant) and \
-                isinstance(body[0].value.value, str):
-            body = body[1:]
+        forced_temp: set[str] = set()
+        for _attempt in range(len(params) + len(kwonly) + 1):
+            subst: dict[str, ast.AST] = {}
+            rename: dict[str, str] = {}
+            pre: list[ast.stmt] = []
+            for p in params + kwonly:
+                e = bound[p]
+                if _simple_arg(e) and p not in stored and p not in forced_temp:
+                    subst[p] = e
+                else:
+                    rename[p] = p + tag
+                    asg = ast.Assign(targets=[ast.Name(id=p + tag, ctx=ast.Store())], value=copy.deepcopy(e))
+                    pre.append(ast.copy_location(asg, call))
+            for nm in stored:
+                if nm not in rename and nm not in subst:
+                    rename[nm] = nm + tag
+            body = copy.deepcopy(hfn.body)
+            if body and isinstance(body[0], ast.Expr) and isinstance(body[0].value, ast.Constant) and \
+                    isinstance(body[0].value.value, str):
+                body = body[1:]
+            ren = _Renamer(subst, rename)
+            body = [ren.visit(s) for s in body]
+            # an attribute path handed in by value (`helper(t, t.pointer)`) must not be read as the live path when
+            # the helper writes it or passes its owner on: bind it to a temporary instead
+            unsafe = [p for p, e in subst.items() if isinstance(e, ast.Attribute) and _path_may_change(e, body)]
+            if not unsafe:
+                break
+            forced_temp |= set(unsafe)
         ret_target = None
         post: list[ast.stmt] = []
         if mode == 'assign':
             ret_target = target
         elif mode == 'return':
             pass        # handled below: the helper's returns become the caller's
-        ren = _Renamer(subst, rename)
-        body = [ren.visit(s) for s in body]
         if mode in ('tail', 'return'):
             # the caller returns whatever the helper returns (tail: the value is dropped, the caller returns None)
             if mode == 'tail':
@@ -1139,6 +1192,17 @@ def _stable_expr(e: ast.AST) -> bool:
     return False
 
 
+def max_pos_in(node, pos) -> int:
+    return max(pos.get(id(x), 0) for x in ast.walk(node))
+
+
+def last_stmt_pos(node, uses, pos) -> int:
+    """Position of `node` if every use of the alias at or after it lies inside it, else -1."""
+    inside = {id(x) for x in ast.walk(node)}
+    later = [u for u in uses if pos[id(u)] >= pos[id(node)]]
+    return pos[id(node)] if later and all(id(u) in inside for u in later) else -1
+
+
 def _dealias(fn: ast.FunctionDef) -> int:
     total = 0
     for _ in range(24):
@@ -1162,8 +1226,19 @@ def _dealias_once(fn: ast.FunctionDef) -> int:
             stores.setdefault(n.id, []).append(n)
         if n is not fn and isinstance(n, (ast.FunctionDef, ast.AsyncFunctionDef, ast.Lambda)):
             return 0            # closures: keep it simple
-    # every write event with its line: (text of the written path, line)
+    # document order of every node (line numbers are not reliable after structural expansion: statements spliced in
+    # from a helper carry the call's line)
+    pos: dict[int, int] = {}
+
+    def number(n, c=[0]):
+        c[0] += 1
+        pos[id(n)] = c[0]
+        for ch in ast.iter_child_nodes(n):
+            number(ch, c)
+    number(fn, [0])
+    # every write event with its position: (text of the written path, position)
     writes = []
+    rooted = []         # (name of an object passed to a call, position, call)
     for n in ast.walk(fn):
         tgs = []
         if isinstance(n, ast.Assign):
@@ -1177,10 +1252,15 @@ def _dealias_once(fn: ast.FunctionDef) -> int:
         for t in tgs:
             for x in ast.walk(t):
                 if isinstance(x, (ast.Name, ast.Attribute, ast.Subscript)) and isinstance(getattr(x, 'ctx', None), (ast.Store, ast.Del)):
-                    writes.append((ast.unparse(x), n.lineno, n))
+                    writes.append((ast.unparse(x), pos[id(n)], n))
         if isinstance(n, ast.Call) and isinstance(n.func, ast.Attribute):
             # a method call may change its receiver (move_pointer, append, pop ...)
-            writes.append((ast.unparse(n.func.value), n.lineno, n))
+            writes.append((ast.unparse(n.func.value), pos[id(n)], n))
+        if isinstance(n, ast.Call) and isinstance(n.func, ast.Name) and n.func.id not in _NO_EFFECT_CALLS:
+            # a function that is handed an object may change the object's attributes / items
+            for a in list(n.args) + [k.value for k in n.keywords]:
+                if isinstance(a, ast.Name):
+                    rooted.append((a.id, pos[id(n)], n))
     cands = {}
     for st in ast.walk(fn):
         if isinstance(st, ast.Assign) and len(st.targets) == 1 and isinstance(st.targets[0], ast.Name):
@@ -1199,7 +1279,7 @@ def _dealias_once(fn: ast.FunctionDef) -> int:
                         continue
                     if x.id not in params and not ss:
                         continue            # a global / module
-                    if len(ss) == 1 and ss[0].lineno < st.lineno and x.id not in params:
+                    if len(ss) == 1 and pos[id(ss[0])] < pos[id(st)] and x.id not in params:
                         continue
                     ok = False
             if ok:
@@ -1213,12 +1293,12 @@ def _dealias_once(fn: ast.FunctionDef) -> int:
         uses = [x for x in ast.walk(fn) if isinstance(x, ast.Name) and x.id == nm and isinstance(x.ctx, ast.Load)]
         if not uses:
             continue
-        last = max(u.lineno for u in uses)
+        last = max(pos[id(u)] for u in uses)
         # writes to a part of the expression (or through a method call on a part) between definition and last use;
         # writes *through the alias itself* (items[i] = v) are what we are translating, not a hazard
         hazard = False
         for wt, line, node in writes:
-            if node is st or not (st.lineno <= line <= last):
+            if node is st or not (pos[id(st)] <= line <= last):
                 continue
             if wt == nm or wt.startswith(nm + '[') or wt.startswith(nm + '.'):
                 continue
@@ -1226,6 +1306,13 @@ def _dealias_once(fn: ast.FunctionDef) -> int:
                                     and not isinstance(v, ast.BinOp)):
                 hazard = True
             if isinstance(node, ast.Call) and isinstance(v, ast.BinOp) and wt in parts:
+                hazard = True
+        for root, line, node in rooted:
+            if pos[id(st)] <= line <= last and any(pt.startswith(root + '.') or pt.startswith(root + '[') for pt in parts):
+                # the call itself may be the (only) use: reading the path as an argument of that very call is fine when
+                # the alias is not used after it
+                if line == last_stmt_pos(node, uses, pos) and not any(pos[id(u)] > max_pos_in(node, pos) for u in uses):
+                    continue
                 hazard = True
         if hazard:
             continue
@@ -1327,6 +1414,8 @@ def _absorb_new_modules(modules: dict) -> int:
 
 def normalise(modules: dict) -> dict:
     nabs = _absorb_new_modules(modules)
+    from . import structural
+    structural_notes = structural.run_all(modules)
     ntab = _expand_table_arms(modules)
     nconst = _propagate_constants(modules)
     n = 0
@@ -1365,4 +1454,5 @@ def normalise(modules: dict) -> dict:
     notes['table_arms_expanded'] = ntab
     notes['aliases_resolved'] = nalias
     notes['modules_absorbed'] = nabs
+    notes.update(structural_notes)
     return notes
